@@ -2,8 +2,8 @@
 Core B: histories, retained part.  The retained trie reached by any list of
 operations holds, up to permutation, the abstract store's retained messages
 (last non-empty message per topic), and `Retained` answers as section 4.7
-prescribes - for good operations (no empty level, no '$'-led level, retained
-topics are valid names).  Helper lemmas only.
+prescribes - for good operations (no empty level, not beginning with '$',
+retained topics are valid names).  Helper lemmas only.
 -/
 import Mqtt.Proofs.TopicsHistory
 import Mqtt.Proofs.TopicsRetained
@@ -29,7 +29,7 @@ structure RInv (root : RNode) (rets : List Ret) : Prop where
   wf : RWF root
   perm : (absR root).Perm (absRets rets)
 
-/-- a good operation: no empty level, no '$'-led level; a retained topic is a valid name -/
+/-- a good operation: no empty level, not beginning with '$'; a retained topic is a valid name -/
 def goodOp (op : Op) : Bool :=
   good (opTopic op) && (match op with | .retain t _ _ => validName t | _ => true)
 
@@ -37,27 +37,34 @@ def goodOp (op : Op) : Bool :=
 
 theorem modelStep_sub_rroot (mt : MemTopics) (f : List UInt8) (q s : Nat) :
     (modelStep mt (.sub f q s)).1.rroot = mt.rroot := by
-  unfold modelStep
-  simp only [MemTopics.subscribe, SNode.sinsert]
-  cases validQos q
-  · rfl
-  · simp only [Bool.not_true, Bool.false_eq_true, ↓reduceIte]
-    by_cases hx : (levels f).2 = true <;> simp [hx]
+  cases hd : checkSys f with
+  | true => rw [modelStep_sub_sys _ _ _ _ hd]
+  | false =>
+    simp only [modelStep, subscribe_of_not_sys _ _ _ _ _ hd, SNode.sinsert]
+    cases validQos q
+    · rfl
+    · simp only [Bool.not_true, Bool.false_eq_true, ↓reduceIte]
+      by_cases hx : (levels f).2 = true <;> simp [hx]
 
 theorem modelStep_unsub_rroot (mt : MemTopics) (f : List UInt8) (s : Nat) :
     (modelStep mt (.unsub f s)).1.rroot = mt.rroot := by
-  simp [modelStep, MemTopics.unsubscribe, SNode.sremove]
+  cases hd : checkSys f with
+  | true => rw [modelStep_unsub_sys _ _ _ hd]
+  | false => simp [modelStep, unsubscribe_of_not_sys _ _ _ hd, SNode.sremove]
 
 theorem modelStep_unsubAll_rroot (mt : MemTopics) (f : List UInt8) :
     (modelStep mt (.unsubAll f)).1.rroot = mt.rroot := by
-  simp [modelStep, MemTopics.unsubscribe, SNode.sremove]
+  cases hd : checkSys f with
+  | true => rw [modelStep_unsubAll_sys _ _ hd]
+  | false => simp [modelStep, unsubscribe_of_not_sys _ _ _ hd, SNode.sremove]
 
-theorem modelStep_retain_rroot (mt : MemTopics) (t : List UInt8) (q : Nat) (p : List UInt8) :
+theorem modelStep_retain_rroot (mt : MemTopics) (t : List UInt8) (q : Nat) (p : List UInt8)
+    (hd : checkSys t = false) :
     (modelStep mt (.retain t q p)).1.rroot =
       if p.isEmpty then (mt.rroot.rremoveL (levels t).1 (levels t).2).1
       else mt.rroot.rinsertL (levels t).1 (levels t).2 { topic := t, qos := q, payload := p } := by
-  unfold modelStep
-  simp only [MemTopics.retain, RNode.rremove, RNode.rinsert]
+  have hd' : checkSys ({ topic := t, qos := q, payload := p } : RMsg).topic = false := hd
+  simp only [modelStep, retain_of_not_sys _ _ hd', RNode.rremove, RNode.rinsert]
   cases p.isEmpty <;> rfl
 
 def specRets (rets : List Ret) : Op → List Ret
@@ -126,7 +133,7 @@ theorem step_rinv (mt : MemTopics) (rets : List Ret) (op : Op) (hg : goodOp op =
     obtain ⟨hgt, hn⟩ := hg
     have hd : dollar t = false := good_not_dollar t hgt
     obtain ⟨e1, e2⟩ := levels_valid t hgt (validName_validFilter t hn)
-    rw [modelStep_retain_rroot, e1, e2]
+    rw [modelStep_retain_rroot _ _ _ _ (good_checkSys t hgt), e1, e2]
     simp only [specRets, hd, hn, Bool.not_true, Bool.or_self, Bool.false_eq_true, ↓reduceIte]
     cases hp : p.isEmpty with
     | true =>
@@ -161,6 +168,64 @@ theorem run_rinv (ops : List Op) (hg : ∀ op ∈ ops, goodOp op = true) :
   apply run_rinv_aux ops _ _ hg
   exact ⟨RWF_empty, by simp [MemTopics.new, absR_empty, absRets, Mqtt.Spec.TopicStore.empty]⟩
 
+/-! ### histories that also contain topics beginning with '$' -/
+
+/-- an operation the retained refinement admits: no empty level; a retained
+topic is a valid name (it may begin with '$': then both sides ignore it) -/
+def okOp (op : Op) : Bool :=
+  noEmptyLevel (opTopic op) && (match op with | .retain t _ _ => validName t | _ => true)
+
+theorem goodOp_okOp (op : Op) (h : goodOp op = true) : okOp op = true := by
+  simp only [goodOp, okOp, Bool.and_eq_true] at h ⊢
+  exact ⟨good_noEmptyLevel _ h.1, h.2⟩
+
+theorem modelStep_retain_sys (mt : MemTopics) (t : List UInt8) (q : Nat) (p : List UInt8)
+    (hd : checkSys t = true) : (modelStep mt (.retain t q p)).1 = mt := by
+  have hd' : checkSys ({ topic := t, qos := q, payload := p } : RMsg).topic = true := hd
+  simp only [modelStep, retain_of_sys _ _ hd']
+
+theorem step_rinv_any (mt : MemTopics) (rets : List Ret) (op : Op) (hg : okOp op = true)
+    (h : RInv mt.rroot rets) : RInv (modelStep mt op).1.rroot (specRets rets op) := by
+  cases hd : dollar (opTopic op) with
+  | false =>
+    apply step_rinv mt rets op _ h
+    simp only [okOp, Bool.and_eq_true] at hg
+    simp only [goodOp, Bool.and_eq_true]
+    exact ⟨good_of _ hg.1 hd, hg.2⟩
+  | true =>
+    cases op with
+    | sub f q sub => rw [modelStep_sub_rroot]; exact h
+    | unsub f sub => rw [modelStep_unsub_rroot]; exact h
+    | unsubAll f => rw [modelStep_unsubAll_rroot]; exact h
+    | subs t q => rw [modelStep_subs]; exact h
+    | retained f => rw [modelStep_retained]; exact h
+    | retain t q p =>
+      simp only [opTopic] at hd
+      rw [modelStep_retain_sys _ _ _ _ hd]
+      simp only [specRets, hd, Bool.true_or, ↓reduceIte]
+      exact h
+
+theorem run_rinv_any_aux (ops : List Op) :
+    ∀ (mt : MemTopics) (s : S), (∀ op ∈ ops, okOp op = true) → RInv mt.rroot s.rets →
+      RInv (ops.foldl (fun mt op => (modelStep mt op).1) mt).rroot
+           (ops.foldl (fun s op => (step s op).1) s).rets := by
+  induction ops with
+  | nil => intro mt s _ h; exact h
+  | cons op ops ih =>
+    intro mt s hg h
+    simp only [List.foldl_cons]
+    apply ih _ _ (fun o ho => hg o (by simp [ho]))
+    rw [step_rets]
+    exact step_rinv_any mt s.rets op (hg op (by simp)) h
+
+/-- after any history without empty levels whose retained topics are valid
+names - operations on topics beginning with '$' included - the retained trie
+refines the abstract store -/
+theorem run_rinv_any (ops : List Op) (hg : ∀ op ∈ ops, okOp op = true) :
+    RInv (mrun ops).rroot (srun ops).rets := by
+  apply run_rinv_any_aux ops _ _ hg
+  exact ⟨RWF_empty, by simp [MemTopics.new, absR_empty, absRets, Mqtt.Spec.TopicStore.empty]⟩
+
 /-! ### the query -/
 
 theorem selR_absRets (rets : List Ret) (fs : List Level) :
@@ -184,7 +249,8 @@ theorem retained_refines (mt : MemTopics) (rets : List Ret) (f : List UInt8)
   have hvl : validFilterLevels (split f) = true := by
     simp only [validFilter, Bool.and_eq_true] at hv; exact hv.2
   refine ⟨r, ?_, ?_⟩
-  · simp only [MemTopics.retained, RNode.rmatch]
+  · rw [retained_of_not_sys _ _ (good_checkSys f hg)]
+    simp only [RNode.rmatch]
     rw [← e1, ← e2] at hr
     exact hr
   · have h1 := (hp.trans (h.perm.filterMap _)).map toRet
